@@ -140,7 +140,7 @@ func FuncName(f *types.Func) string {
 	if f == nil {
 		return "<dynamic>"
 	}
-	return f.FullName()
+	return CanonFullName(f)
 }
 
 // IsCallTo reports whether c calls the function/method with the given full
@@ -152,7 +152,7 @@ func IsCallTo(c ssa.CallInstruction, full ...string) bool {
 	if f == nil {
 		return false
 	}
-	n := f.FullName()
+	n := CanonFullName(f)
 	for _, x := range full {
 		if n == x {
 			return true
@@ -508,7 +508,7 @@ func desc(v ssa.Value, depth int) string {
 	case *ssa.Global:
 		return x.Name()
 	case *ssa.Function:
-		return "func " + x.String()
+		return "func " + FStr(x)
 	case *ssa.Builtin:
 		return x.Name()
 	case *ssa.FieldAddr:
@@ -594,7 +594,7 @@ func desc(v ssa.Value, depth int) string {
 		// len(buf.Bytes()) is buf.Len() for zap's buffer (and bytes.Buffer): one canonical form
 		if CallBuiltin(x) == "len" && len(x.Call.Args) == 1 {
 			if bc, ok := x.Call.Args[0].(*ssa.Call); ok {
-				if f := CalleeFunc(bc); f != nil && f.Name() == "Bytes" && f.Pkg() != nil && (f.Pkg().Path() == "go.uber.org/zap/buffer" || f.Pkg().Path() == "bytes") && len(Args(bc)) == 1 {
+				if f := CalleeFunc(bc); f != nil && FNm(f) == "Bytes" && f.Pkg() != nil && (f.Pkg().Path() == "go.uber.org/zap/buffer" || f.Pkg().Path() == "bytes") && len(Args(bc)) == 1 {
 					return "Len(" + desc(Args(bc)[0], depth+1) + ")"
 				}
 			}
@@ -605,7 +605,7 @@ func desc(v ssa.Value, depth int) string {
 		}
 		name := ""
 		if f := CalleeFunc(x); f != nil {
-			name = f.Name()
+			name = FNm(f)
 		} else if b := CallBuiltin(x); b != "" {
 			name = b
 		} else {
@@ -700,7 +700,7 @@ func canonParamName(p *ssa.Parameter) (string, bool) {
 	if f == nil || f.Parent() != nil {
 		return "", false
 	}
-	names, ok := canonParams[f.String()]
+	names, ok := canonParams[FStr(f)]
 	if !ok || len(names) != len(f.Params) {
 		return "", false
 	}
@@ -724,8 +724,8 @@ func DumpParamTable(p *Program) string {
 		for _, q := range f.Params {
 			ns = append(ns, q.Name())
 		}
-		tbl[f.String()] = ns
-		keys = append(keys, f.String())
+		tbl[FStr(f)] = ns
+		keys = append(keys, FStr(f))
 	})
 	sort.Strings(keys)
 	var sb strings.Builder
@@ -933,7 +933,7 @@ func IsFresh(v ssa.Value, constructors ...string) bool {
 	case *ssa.Call:
 		if f := CalleeFunc(x); f != nil {
 			for _, c := range constructors {
-				if f.FullName() == c {
+				if CanonFullName(f) == c {
 					return true
 				}
 			}
@@ -1028,7 +1028,7 @@ func FuncKey(f *ssa.Function) string {
 	if f.Parent() != nil {
 		return FuncKey(f.Parent()) + "$" + strings.TrimPrefix(f.Name(), f.Parent().Name()+"$")
 	}
-	return f.String()
+	return FStr(f)
 }
 
 // RetVals returns the values a Return yields, resolving "defer-spilled"
@@ -1246,7 +1246,7 @@ func nonNegative(v ssa.Value) bool {
 		return true
 	}
 	if f := CalleeFunc(c); f != nil {
-		switch f.Name() {
+		switch FNm(f) {
 		case "Len", "Cap", "Buffered", "Available", "Size", "Count", "NumAttrs":
 			sig := f.Type().(*types.Signature)
 			return sig.Params().Len() == 0 && sig.Results().Len() == 1
